@@ -155,6 +155,8 @@ def c08(proj, rep, tier):
     rep.floor('E1 literal table obligations', n, 22)
     n = pauli.e2(proj, rep)
     rep.floor('E2 phase-folding obligations', n, 6)
+    n = pauli.e3(proj, rep)
+    rep.floor('E3 rand_pauli hermiticity obligations', n, 2)
     ncache, nsites = ownership.o1(proj, rep, focus={'numqi.gate._pauli.get_pauli_group'})
     nfun, tot = seed.run(proj, rep, ['numqi.random._spf2'])
     rep.floor('seed functions in random._spf2 (rand_pauli)', nfun, 4)
